@@ -93,8 +93,32 @@ def replay(ctx, pid, mode, behaviours, r1cs_share, nproc=12):
 
 def replay_file(ctx, path):
     case = json.load(open(path))
-    res = ctx.run_vh(["mtb"], case["cases"])
+    res = ctx.run_vh(["gadget-tiny" if case.get("kind") == "gadget-tiny" else "mtb"], case["cases"])
     bad = [x for x in res if not x["ok"]]
     for x in bad:
         print("REPRODUCED:", json.dumps(x)[:700])
     return 1 if bad else 0
+
+
+def tiny_relation(ctx, mode, configs, nproc=12):
+    """Leg (a): the gadget relation on EVERY tuple over a tiny field (GadgetTiny.tla accepted set = accepted set of the Go gadget in the test engine)."""
+    total = 0
+    for p, d, b in configs:
+        c = ('SPECIFICATION Spec\nCONSTANTS FieldMode = "small"\nP = %d\nDepth = %d\nBatch = %d\nKind = "%s"\nINVARIANTS Export\nCHECK_DEADLOCK FALSE\n' % (p, d, b, mode))
+        r = ctx.tlc("GadgetTiny", c, label="GadgetTiny %s F_%d depth=%d batch=%d (all tuples)" % (mode, p, d, b), timeout=3000, heap="24g")
+        acc = r["traces"]
+        jobs = [dict(p=p, depth=d, batch=b, kind=mode, accepted=acc, part=k, parts=nproc) for k in range(nproc)]
+        with ThreadPoolExecutor(nproc) as ex:
+            results = list(ex.map(lambda j: ctx.run_vh(["gadget-tiny"], j, timeout=3000), jobs))
+        ev = 0
+        for res in results:
+            for x in res:
+                ev += x["observed"]["evaluated"]
+                if not x["ok"]:
+                    ctx.violation(x["detail"], dict(kind="gadget-tiny", cases=dict(x["case"], accepted=acc)))
+        nvars = (1 if mode == "insertion" else b) + 2 + b + b * d
+        if ev != p ** nvars:
+            raise Infra("gadget-tiny evaluated %d of %d tuples" % (ev, p ** nvars))
+        total += ev
+        ctx.cov.setdefault("tiny_field_relation", {})["F_%d d=%d b=%d" % (p, d, b)] = dict(tuples=ev, accepted=len(acc))
+    return total
